@@ -43,6 +43,14 @@ func (u *unitCtx) params(n int, exts []int, typeParam string) (string, []varInfo
 		if rapid.IntRange(0, 6).Draw(t, "finalParam") == 0 {
 			fin = "final "
 		}
+		if g.o.RichDecl && rapid.IntRange(0, 5).Draw(t, "paramAnn") == 0 {
+			ann := rapid.SampledFrom([]string{"@NotNull ", "@Named(\"x\") ", "@Size(min = 1, max = 3) "}).Draw(t, "paramAnnText")
+			if rapid.Bool().Draw(t, "paramAnnFirst") {
+				fin = ann + fin
+			} else {
+				fin = fin + ann
+			}
+		}
 		parts = append(parts, fin+vi.typ+" "+name)
 		vi.typ = nb(vi.typ)
 		vars = append(vars, vi)
@@ -147,7 +155,13 @@ func (u *unitCtx) method(ms methodSig, exts []int, typeParam string) {
 	if !abstract && !u.sameLine && rapid.IntRange(0, 7).Draw(t, "overrideAnn") == 0 {
 		w.S(u.indent + "@Override\n")
 	}
+	if u.g.o.RichDecl && !u.sameLine && rapid.IntRange(0, 4).Draw(t, "methodAnn") == 0 {
+		w.S(u.indent + rapid.SampledFrom([]string{"@SuppressWarnings(\"unchecked\")", "@Timed(value = \"t\", extraTags = {\"a\", \"b\"})", "@Deprecated", "@org.demo.Audited(level = 2)"}).Draw(t, "methodAnnText") + "\n")
+	}
 	w.S(u.lead())
+	if u.g.o.RichDecl && rapid.IntRange(0, 9).Draw(t, "inlineMethodAnn") == 0 {
+		w.S("@Deprecated ")
+	}
 	for _, m := range mods {
 		w.S(m + " ")
 	}
@@ -165,10 +179,16 @@ func (u *unitCtx) method(ms methodSig, exts []int, typeParam string) {
 	}
 	ft.DeclLine = w.Line()
 	w.S(ret + " ")
+	if u.g.o.RichDecl && rapid.IntRange(0, 9).Draw(t, "commentInDecl") == 0 {
+		w.S("/* " + u.g.comment("decl") + " */ ")
+	}
 	ft.NameLine, ft.NameCol = w.Line(), w.Col()
 	w.S(ms.name + "(" + ptext + ")")
 	if rapid.IntRange(0, 6).Draw(t, "throws") == 0 {
 		w.S(" throws Exception")
+		if u.g.o.RichDecl && rapid.Bool().Draw(t, "throws2") {
+			w.S(", IllegalStateException")
+		}
 	}
 	if abstract {
 		w.S(";")
